@@ -192,3 +192,33 @@ func ZZH_C09_reexecute() {
 	// the new block's transfer (7) is applied on top of the state of block N-1
 	zz.Cover("C09.reexec.deep-rollback", n == 2)
 }
+
+// ZZH_C08_timeout_ids: the timeout list of the block's height holds entries that are not
+// well-formed transaction ids of known records - pieces produced by a service id that contains a
+// comma or a dash, an empty entry, a group id without a record, a well-formed id without a record.
+// The block still executes through the real processExecuteEvent: no crash, next height committed.
+func ZZH_C08_timeout_ids() {
+	exec := zzNewExec(1, big.NewInt(0))
+	exec.ibtpVerify = &zzStubVerify{verdict: make([]uint8, 1), seen: make([]int, 1)}
+	tm := constant.TransactionMgrContractAddr.Address()
+	lists := []string{
+		"",
+		",",
+		"1356:chA:s,1-1356:chB:s2-1", // service id with a comma: the list splits inside the id
+		"1356:chA:s-1-1356:chB:s2-1", // service id with a dash
+		"1356:chA:s1-1356:chB:s2-1",  // well formed, but no record
+		"0xGLOBALGROUPID",            // looks like a group id, no record
+		"1356:chA:s1-1356:chB:s2-x",  // index is not a number
+		"nodashes",
+		"1356:chA:s1-1356:chB:s2-1,1356:chA:s1-1356:chB:s2-1", // the same id twice
+	}
+	exec.ledger.SetState(tm, []byte(contracts.TimeoutKey(1)), []byte(lists[zz.Choice("timeoutList", len(lists))]), nil)
+	if zz.Choice("withRecord", 2) == 1 {
+		rec := pb.TransactionRecord{Status: pb.TransactionStatus_BEGIN, Height: 1}
+		b, _ := rec.Marshal()
+		exec.ledger.SetState(tm, []byte(contracts.TxInfoKey("1356:chA:s1-1356:chB:s2-1")), b, nil)
+	}
+	crashed, _ := zz.Crashed(func() { exec.processExecuteEvent(zzBlockOf(1, nil)) })
+	zz.Assert("C08.timeout-ids.block-executes", !crashed)
+	zz.Assert("C08.timeout-ids.height+1", crashed || (exec.currentHeight == 1 && exec.ledger.GetChainMeta().Height == 1))
+}
